@@ -450,6 +450,16 @@ class Engine:
             ctx.undecided("unsupported", str(u)[:80], str(u))
         except RecursionError:
             ctx.undecided("unsupported", "recursion", "interpreter recursion limit")
+        except (AttributeError, TypeError, KeyError, IndexError, z3.Z3Exception) as e:
+            # a value of a kind the executor has no rule for at this point (typically an Opaque where a typed value is needed):
+            # the path is undecided, never "verified"; PYVC_DEBUG=1 shows the trace
+            import os as _os
+            if _os.environ.get("PYVC_DEBUG"):
+                raise
+            import traceback as _tb
+            where = _tb.extract_tb(e.__traceback__)[-1]
+            ctx.undecided("unsupported", f"no rule: {type(e).__name__}"[:80],
+                          f"executor has no rule here ({type(e).__name__}: {e}) at {where.filename.rsplit('/', 1)[-1]}:{where.lineno}")
         return ctx
 
     def check_exit(self, interp, ct, outcome):
